@@ -5,15 +5,8 @@ sys.path.insert(0, HERE)
 
 BASELINE = "cd /repo && /venv/bin/python -m pytest -ra -q -p no:cacheprovider --timeout=900 --continue-on-collection-errors"
 
-# property -> (design ref, technique, level text, level note)
-CHECKS = {}
-
-
-def claim(pid, ref, technique, text, note, category="proof"):
-    CHECKS[pid] = dict(ref=ref, technique=technique, text=text, note=note, category=category)
-
-
-from harness import claims  # noqa  (fills CHECKS)
+from harness import claims  # noqa
+CHECKS = claims.CHECKS
 
 ALL = ["C%02d" % i for i in range(1, 21)]
 
